@@ -677,6 +677,62 @@ theorem addOrUpdatePropsMetadata_valid {env : Env} {o o' : MetaObj} {props : Lis
       exact ⟨hv, hax, hn, dictUpdate_valid _ _ hl.1 hl.2, ht, hr⟩
     · simp [throw, throwThe, MonadExceptOf.throw] at h2
 
+theorem minMaxLoop_valid (cols : List (String × MinMaxCol)) (hwf : ∀ c ∈ cols, c.2.WF) :
+    ∀ (l l' : List Axis), (∀ a ∈ l, a.ValidBy ordCode) → minMaxLoop cols l = .ok l' →
+      (∀ a ∈ l', a.ValidBy ordCode) ∧ axisNames l' = axisNames l := by
+  intro l
+  induction l with
+  | nil => intro l' _ h; simp [minMaxLoop] at h; subst h; simp
+  | cons a rest ih =>
+    intro l' hv h
+    have ha := hv a (by simp)
+    have hrest : ∀ b ∈ rest, b.ValidBy ordCode := fun b hb => hv b (by simp [hb])
+    simp only [minMaxLoop] at h
+    split at h
+    · simp at h
+    · simp at h
+    · split at h
+      · simp at h
+      · rename_i tl htl
+        simp at h; subst h
+        obtain ⟨h1, h2⟩ := ih tl hrest htl
+        refine ⟨?_, by simp [axisNames] at h2 ⊢; exact h2⟩
+        intro b hb
+        rcases List.mem_cons.1 hb with rfl | hb
+        · exact ha
+        · exact h1 b hb
+    · rename_i lo hi hlk
+      split at h
+      · simp at h
+      · rename_i tl htl
+        simp at h; subst h
+        obtain ⟨h1, h2⟩ := ih tl hrest htl
+        have hord : ordCode lo hi = true := by
+          have := hwf _ (lookup_mem _ _ _ hlk)
+          simpa [MinMaxCol.WF, ordCode] using this
+        refine ⟨?_, by simp [axisNames] at h2 ⊢; exact h2⟩
+        intro b hb
+        rcases List.mem_cons.1 hb with rfl | hb
+        · obtain ⟨t1, _, _, t4⟩ := ha
+          refine ⟨t1, rfl, ?_, t4⟩
+          intro l hl h' hh
+          simp only [Option.mem_def, Option.some.injEq] at hl hh
+          subst hl; subst hh; exact hord
+        · exact h1 b hb
+
+theorem computeAndAddAxisMinMax_valid {env : Env} {o o' : MetaObj} {cols : List (String × MinMaxCol)}
+    (hwf : ∀ c ∈ cols, c.2.WF) (ho : ValidCode env o.val) (h : computeAndAddAxisMinMax o cols = .ok o') :
+    ValidCode env o'.val := by
+  unfold computeAndAddAxisMinMax at h
+  split at h
+  · simp [copy] at h; subst h; exact ho
+  · rename_i l hl
+    split at h
+    · simp at h
+    · rename_i l' hl'
+      have hax : ∀ a ∈ l, a.ValidBy ordCode := (ho.2.1 l hl).2.1
+      exact assignAxes_valid ho (minMaxLoop_valid cols hwf l l' hax hl').1 h
+
 /-! ### histories -/
 
 theorem start_valid {env : Env} (hdef : env.versionOk env.defaultVersion = true) {i : Init} {o : MetaObj}
@@ -694,8 +750,10 @@ theorem ofExcept_valid {env : Env} {o : MetaObj} {r : Except Err MetaObj} (ho : 
   | ok o' => exact hr o' rfl
 
 theorem step_valid {env : Env} (hdef : env.versionOk env.defaultVersion = true) {o : MetaObj}
-    (ho : ValidCode env o.val) (op : Op) : ValidCode env (step env o op).2.val := by
+    (ho : ValidCode env o.val) (op : Op) (hwf : op.WF) : ValidCode env (step env o op).2.val := by
   cases op with
+  | minMax cols =>
+    exact ofExcept_valid ho (fun o' h => computeAndAddAxisMinMax_valid hwf ho h)
   | assign f v => exact assign_valid ho f v
   | copy => exact ho
   | updateAxes names units types scales su offset =>
@@ -719,28 +777,32 @@ theorem step_failed_noop (env : Env) (o : MetaObj) (op : Op) (h : (step env o op
   | updateAxes names units types scales su offset => exact ofExcept_noop h
   | createOrUpdate d ax => exact ofExcept_noop h
   | addProps props ct => exact ofExcept_noop h
+  | minMax cols => exact ofExcept_noop h
 
 theorem run_valid {env : Env} (hdef : env.versionOk env.defaultVersion = true) :
-    ∀ (ops : List Op) {o : MetaObj}, ValidCode env o.val → ValidCode env (run env o ops).val := by
+    ∀ (ops : List Op) {o : MetaObj}, (∀ op ∈ ops, op.WF) → ValidCode env o.val →
+      ValidCode env (run env o ops).val := by
   intro ops
   induction ops with
-  | nil => intro o ho; exact ho
+  | nil => intro o _ ho; exact ho
   | cons op ops ih =>
-    intro o ho
+    intro o hwf ho
     simp only [run, List.foldl_cons]
-    exact ih (step_valid hdef ho op)
+    exact ih (fun p hp => hwf p (by simp [hp])) (step_valid hdef ho op (hwf op (by simp)))
 
 theorem trace_valid {env : Env} (hdef : env.versionOk env.defaultVersion = true) :
-    ∀ (ops : List Op) {o : MetaObj}, ValidCode env o.val → ∀ r ∈ trace env o ops, ValidCode env r.2.val := by
+    ∀ (ops : List Op) {o : MetaObj}, (∀ op ∈ ops, op.WF) → ValidCode env o.val →
+      ∀ r ∈ trace env o ops, ValidCode env r.2.val := by
   intro ops
   induction ops with
-  | nil => intro o _ r hr; simp [trace] at hr
+  | nil => intro o _ _ r hr; simp [trace] at hr
   | cons op ops ih =>
-    intro o ho r hr
+    intro o hwf ho r hr
+    have hstep := step_valid hdef ho op (hwf op (by simp))
     simp only [trace, List.mem_cons] at hr
     rcases hr with rfl | hr
-    · exact step_valid hdef ho op
-    · exact ih (step_valid hdef ho op) r hr
+    · exact hstep
+    · exact ih (fun p hp => hwf p (by simp [hp])) hstep r hr
 
 /-! ### from what the code enforces to the specification -/
 
